@@ -207,7 +207,7 @@ func RunCheck(id, tier string, seed int, verifDir string) int {
 			perSolverN[r.Solver]++
 		}
 		obsOut = append(obsOut, map[string]interface{}{"name": r.Name, "kind": r.Kind, "mode": r.Mode, "paths": r.Paths, "status": r.Status,
-			"solver": r.Solver, "time_s": round3(r.TimeS), "smt_bytes": r.SmtBytes, "clause": r.Src})
+			"solver": r.Solver, "time_s": round3(r.TimeS), "max_query_s": round3(r.MaxS), "smt_bytes": r.SmtBytes, "clause": r.Src})
 		switch r.Status {
 		case "discharged":
 			discharged++
